@@ -39,6 +39,7 @@ What the search-level theorems cover, said once:
 -/
 import Compass.Model.Search
 import Compass.Gen.Decisions
+import Compass.Gen.FnsC04
 import Compass.Proofs.Num
 import Compass.Model.Instance
 import Compass.Proofs.SearchRoute
@@ -932,6 +933,45 @@ source's `tentative_gscore < existing_gscore`; with `<=` an equal-cost arrival r
 theorem src_relax_improves {α : Type} [Field α] [LinearOrder α] [IsStrictOrderedRing α] [Lit α] [LawfulLit α] (tent ex : α) :
     some (improves tent (some ex)) = relax_improves.num tent ex := by
   simp [improves, relax_improves, Rel.num]
+
+
+/-! ### Generated function bodies
+
+`tools/gen_fns.py` re-translates the body of the Rust function on every run into `Compass/Gen/FnsC04.lean`
+(conventions in the header of the tool).  Each `gen_*_eq` theorem below says that the generated definition
+*is* the hand-written model function the property theorems are about.  A source change to the function
+changes the generated definition and the proof stops checking (a body the translator no longer recognises is
+not emitted: the theorem no longer elaborates). -/
+
+/-! `VehicleRestriction::valid` is translated arm by arm (the model's `Restriction` folds the six variants into a
+per-axle flag and a dimension selector): each arm of the source is the model's `valid` at the constructor that
+stands for the variant. -/
+
+theorem gen_valid_total_weight_eq {α : Type} [Field α] [LinearOrder α] [IsStrictOrderedRing α] [Lit α] [LawfulLit α] (x : α) (u : WeightUnit) (p : VehicleParams α) :
+    Gen.VehicleRestriction_valid_MaximumTotalWeight (x, u) p = (Restriction.weight false x u).valid p := by
+  simp [Gen.VehicleRestriction_valid_MaximumTotalWeight, Restriction.valid]
+
+/-- the source divides by `number_of_axles as f64` as it is; the model spells out what IEEE division by zero
+does (`perAxleOk`), which is outside a field: the two agree for a vehicle with axles -/
+theorem gen_valid_weight_per_axle_eq {α : Type} [Field α] [LinearOrder α] [IsStrictOrderedRing α] [Lit α] [LawfulLit α] (x : α) (u : WeightUnit) (p : VehicleParams α) (h : p.axles ≠ 0) :
+    Gen.VehicleRestriction_valid_MaximumWeightPerAxle (x, u) p = (Restriction.weight true x u).valid p := by
+  simp [Gen.VehicleRestriction_valid_MaximumWeightPerAxle, Restriction.valid, perAxleOk, h]
+
+theorem gen_valid_length_eq {α : Type} [Field α] [LinearOrder α] [IsStrictOrderedRing α] [Lit α] [LawfulLit α] (x : α) (u : DistanceUnit) (p : VehicleParams α) :
+    Gen.VehicleRestriction_valid_MaximumLength (x, u) p = (Restriction.length 2 x u).valid p := by
+  simp [Gen.VehicleRestriction_valid_MaximumLength, Restriction.valid]
+
+theorem gen_valid_width_eq {α : Type} [Field α] [LinearOrder α] [IsStrictOrderedRing α] [Lit α] [LawfulLit α] (x : α) (u : DistanceUnit) (p : VehicleParams α) :
+    Gen.VehicleRestriction_valid_MaximumWidth (x, u) p = (Restriction.length 3 x u).valid p := by
+  simp [Gen.VehicleRestriction_valid_MaximumWidth, Restriction.valid]
+
+theorem gen_valid_height_eq {α : Type} [Field α] [LinearOrder α] [IsStrictOrderedRing α] [Lit α] [LawfulLit α] (x : α) (u : DistanceUnit) (p : VehicleParams α) :
+    Gen.VehicleRestriction_valid_MaximumHeight (x, u) p = (Restriction.length 4 x u).valid p := by
+  simp [Gen.VehicleRestriction_valid_MaximumHeight, Restriction.valid]
+
+theorem gen_valid_trailer_length_eq {α : Type} [Field α] [LinearOrder α] [IsStrictOrderedRing α] [Lit α] [LawfulLit α] (x : α) (u : DistanceUnit) (p : VehicleParams α) :
+    Gen.VehicleRestriction_valid_MaximumTrailerLength (x, u) p = (Restriction.length 5 x u).valid p := by
+  simp [Gen.VehicleRestriction_valid_MaximumTrailerLength, Restriction.valid]
 
 end C04
 end Compass
